@@ -71,6 +71,21 @@ def _word_order(ctx, cm_, cls, ordering, nwords=3, busword=8):
     return order, isinstance(reg, list) and len(reg) == len(csrs) and all(a is b for a, b in zip(reg, csrs))
 
 
+def word_loop_order(ctx, rid, classes=("CSRStorage", "CSRStatus")):
+    """Compound registers create (= map to ascending addresses, and iterate last) their words most-significant first for 'big', least
+    significant first for 'little', and register every one (shared with C15: EventManager.pending is a multi-word CSRStatus whose
+    acknowledge commits with the strobes of the word iterated last, i.e. the one at the last address)."""
+    cm_ = ctx.mod(CSR)
+    for cls in classes:
+        fn = cm_.method(cls, "do_finalize")
+        wo = {o: _word_order(ctx, cm_, cls, o) for o in ("big", "little")}
+        ok = wo["big"] == ([2, 1, 0], True) and wo["little"] == ([0, 1, 2], True)
+        ctx.ob(rid, CSR, f"{cls}.do_finalize", "word loop: MSW first for big, LSW first for little; every word registered", ok,
+               "" if ok else f"for a 3-word register the simple CSRs are created (= mapped to ascending addresses) in word order {wo['big'][0]} for "
+                             f"ordering='big' and {wo['little'][0]} for 'little' (registered in that order: {wo['big'][1]}, {wo['little'][1]}): "
+                             f"the strobes taken from the word iterated last no longer belong to the word at the last address", fn)
+
+
 def storage_word_slices(ctx, rid, fxs=None):
     """CSRStorage: bus word i reads and (non-atomic) writes storage[i*busword : i*busword + nbits], nbits = min(size - i*busword,
     busword), each word under its own strobe.  Shared with C15: EventManager.enable is a CSRStorage, bit i enables source i."""
@@ -253,6 +268,9 @@ def run(ctx):
                    "object; bank address from address_map", min_sites=5)
     ctx.rule("R5", "atomic multi-word write commits on the last-iterated (last-address) word for each ordering", min_sites=2)
     ctx.rule("PRIO", "no dead driver", min_sites=2)
+    # R9: exactly the written bits reach the register: the shared CSR bus is an OR of all masters (C14.E10 decides the same construct)
+    from .c14 import _e10
+    _e10(ctx, "R9")
 
     # ================================================================ R1 CSRBank
     fx = fx_of(ctx, BUS, "CSRBank")
@@ -350,13 +368,7 @@ def run(ctx):
     last_word_strobes(ctx, "R2", fxt=fxt)
     # both classes iterate the words in the same ordering-dependent way and register every simple CSR
     cm_ = ctx.mod(CSR)
-    for cls in ("CSRStorage", "CSRStatus"):
-        fn = cm_.method(cls, "do_finalize")
-        wo = {o: _word_order(ctx, cm_, cls, o) for o in ("big", "little")}
-        ok = wo["big"] == ([2, 1, 0], True) and wo["little"] == ([0, 1, 2], True)
-        ctx.ob("R2", CSR, f"{cls}.do_finalize", "word loop: MSW first for big, LSW first for little; every word registered", ok,
-               "" if ok else f"for a 3-word register the simple CSRs are created (= mapped to ascending addresses) in word order {wo['big'][0]} for "
-                             f"ordering='big' and {wo['little'][0]} for 'little' (registered in that order: {wo['big'][1]}, {wo['little'][1]})", fn)
+    word_loop_order(ctx, "R2")
 
     # ================================================================ R5
     fn = cm_.method("CSRStorage", "do_finalize")
